@@ -1,7 +1,7 @@
 (* C13 at the level of TimestampFormatter: the %Qms/%Qus/%Qns search, the split into two cached
    strftime parts, the fraction, the rejections; and the main theorems for GMT and local time. *)
 From Coq Require Import List NArith ZArith Bool Arith Lia.
-From Quill Require Import Time.TimeModel Time.TimeSpec Time.TimeStrings Time.TimeInit Time.TimeDigits Time.TimeProofs.
+From Quill Require Import Time.TimeModel Time.TimeSpec Time.TimeStrings Time.TimeStrict Time.TimeInit Time.TimeDigits Time.TimeProofs.
 Import ListNotations.
 
 Ltac Zify.zify_post_hook ::= Z.to_euclidean_division_equations.
@@ -125,6 +125,14 @@ Proof.
   rewrite flat_app, flat_cons.
   replace (length (flat items1) + 4) with (length (flat items1 ++ item_bytes (Frac k))) by (rewrite app_length; destruct k; reflexivity).
   rewrite app_assoc, skipn_app, skipn_all, Nat.sub_diag. reflexivity.
+Qed.
+
+(* the specifier does not occur again behind its first occurrence *)
+Lemma dup_located : dup_spec (flat whole) k (length (flat items1)) = false.
+Proof.
+  unfold dup_spec. rewrite split_second, findQ_none; auto.
+  - eapply Forall_impl; [|exact T2]. now intros it [? _].
+  - eapply Forall_impl; [|exact T2]. intros it [_ H]. apply H.
 Qed.
 End Located.
 
@@ -267,10 +275,10 @@ Qed.
 End Run.
 
 (* the constructor accepts the pattern and every sequence of instants renders like the reference *)
-Theorem tf_main k nss :
+Theorem tf_main strict k nss :
   (uses_s (items1 ++ items2) -> H2s strf /\ Forall (fun ns => ten_digit (ns / 1000000000)) nss) ->
   Forall (fun ns => (0 <= ns)%Z) nss ->
-  exists x, tf_init (pattern_of items1 k items2) = inl x /\
+  exists x, tf_init strict (pattern_of items1 k items2) = inl x /\
             tf_run strf sodf local x nss = map (ref_render strf items1 k items2) nss.
 Proof.
   intros Hs Hn.
@@ -278,12 +286,13 @@ Proof.
   assert (Hn' : Forall (fun ns => (0 <= ns)%Z /\ (uses_s (items1 ++ items2) -> ten_digit (ns / 1000000000))) nss).
   { rewrite Forall_forall in Hn. rewrite Forall_forall. intros ns Hin. split; [auto|]. intros U. destruct (Hs U) as [_ F].
     rewrite Forall_forall in F. auto. }
-  destruct (sft_init_ok items1 W1) as (gs1 & G1 & E1).
+  destruct (sft_init_ok strict items1 W1) as (gs1 & G1 & E1).
   pose proof (T_of_W _ W1) as T1. pose proof (T_of_W _ W2) as T2.
   destruct W1 as [_ A1]. destruct W2 as [_ A2].
   destruct k as [k|]; cbn [pattern_of].
-  - destruct (sft_init_ok items2 W2) as (gs2 & G2 & E2).
+  - destruct (sft_init_ok strict items2 W2) as (gs2 & G2 & E2).
     unfold tf_init. rewrite (tf_search_located items1 items2 k T1 T2 A1 A2).
+    rewrite (dup_located items1 items2 k T2 A2), andb_false_r.
     rewrite split_first, split_second, E1.
     destruct (flat items2) as [|y f2] eqn:Ef.
     + eexists. split; [reflexivity|]. eapply (tf_run_some Hs' gs1 gs2); eauto.
@@ -319,8 +328,8 @@ Proof.
   intros H. destruct (in_split _ _ H) as (a & b & ->). rewrite flat_app, flat_cons. apply find_sub_occurs.
 Qed.
 
-Lemma rejects_two_kinds items k1 k2 : k1 <> k2 -> In (Frac k1) items -> In (Frac k2) items ->
-  tf_init (flat items) = inr ErrExclusive.
+Lemma rejects_two_kinds strict items k1 k2 : k1 <> k2 -> In (Frac k1) items -> In (Frac k2) items ->
+  tf_init strict (flat items) = inr ErrExclusive.
 Proof.
   intros Hk H1 H2. apply find_sub_in in H1. apply find_sub_in in H2. cbn [item_bytes] in *.
   unfold tf_init, tf_search.
@@ -334,28 +343,160 @@ Definition wf_itemX (it : item) : Prop := wf_item it \/ it = Conv [88%N].
 Lemma wfX_tf it : wf_itemX it -> tf_item it.
 Proof. intros [H| ->]; [now apply wf_tf_item|]. eapply conv_tf_item. reflexivity. Qed.
 
-Lemma sft_init_X items : In (Conv [88%N]) items -> sft_init (flat items) = None.
+Lemma sft_init_X strict items : In (Conv [88%N]) items -> sft_init strict (flat items) = None.
 Proof.
   intros H. apply find_sub_in in H. cbn [item_bytes] in H. unfold sft_init, m_X.
   destruct (find_sub [37%N; 88%N] (flat items)); [reflexivity|congruence].
 Qed.
 
-Lemma rejects_X items1 k items2 :
+Lemma rejects_X strict items1 k items2 :
   Forall wf_itemX items1 -> Forall wf_itemX items2 ->
   adj_ok sp_special items1 = true -> adj_ok sp_special items2 = true ->
   In (Conv [88%N]) (match k with Some _ => items1 ++ items2 | None => items1 end) ->
-  tf_init (pattern_of items1 k items2) = inr ErrX.
+  tf_init strict (pattern_of items1 k items2) = inr ErrX.
 Proof.
   intros X1 X2 A1 A2 Hin.
   assert (T1 : Forall tf_item items1) by (eapply Forall_impl; [|exact X1]; apply wfX_tf).
   assert (T2 : Forall tf_item items2) by (eapply Forall_impl; [|exact X2]; apply wfX_tf).
   destruct k as [k|]; cbn [pattern_of]; unfold tf_init.
-  - rewrite (tf_search_located items1 items2 k T1 T2 A1 A2), split_first, split_second.
-    destruct (sft_init (flat items1)) eqn:E1; [|reflexivity].
+  - rewrite (tf_search_located items1 items2 k T1 T2 A1 A2), (dup_located items1 items2 k T2 A2), andb_false_r.
+    rewrite split_first, split_second.
+    destruct (sft_init strict (flat items1)) eqn:E1; [|reflexivity].
     apply in_app_or in Hin. destruct Hin as [Hin|Hin]; [rewrite sft_init_X in E1; [discriminate|auto]|].
     destruct (flat items2) as [|y f2] eqn:Ef.
     { apply flat_nil_inv in Ef; [subst; destruct Hin|]. eapply Forall_impl; [|exact T2]. now intros it [? _]. }
-    rewrite <- Ef, (sft_init_X items2 Hin). reflexivity.
+    rewrite <- Ef, (sft_init_X strict items2 Hin). reflexivity.
   - rewrite (tf_search_nofrac items1 T1 A1).
-    now rewrite (sft_init_X items1 Hin).
+    now rewrite (sft_init_X strict items1 Hin).
+Qed.
+
+(* ---------------------------------------------------------------- rejections of the repaired code *)
+(* what a successful search says about the three finds *)
+Lemma tf_search_inv f k i : tf_search f = Some (Some (k, i)) ->
+  find_sub (spec_name k) f = Some i /\ forall k0, k0 <> k -> find_sub (spec_name k0) f = None.
+Proof.
+  unfold tf_search.
+  destruct (find_sub (spec_name Qms) f) as [a|] eqn:E1; destruct (find_sub (spec_name Qus) f) as [b|] eqn:E2;
+    destruct (find_sub (spec_name Qns) f) as [c|] eqn:E3; intros H; try discriminate; inversion H; subst;
+    (split; [assumption|]); intros [] Hk; try congruence; assumption.
+Qed.
+
+Lemma tf_search_none_inv f : tf_search f = Some None -> forall k0, find_sub (spec_name k0) f = None.
+Proof.
+  unfold tf_search.
+  destruct (find_sub (spec_name Qms) f) as [a|] eqn:E1; destruct (find_sub (spec_name Qus) f) as [b|] eqn:E2;
+    destruct (find_sub (spec_name Qns) f) as [c|] eqn:E3; intros H; try discriminate; intros []; assumption.
+Qed.
+
+Lemma spec_name_len k : length (spec_name k) = 4.
+Proof. destruct k; reflexivity. Qed.
+
+(* N1 repaired: a specifier that occurs twice (the same kind) makes the constructor throw; any
+   items around and between the two occurrences *)
+Lemma rejects_same_twice a k b c :
+  tf_init true (flat (a ++ Frac k :: b ++ Frac k :: c)) = inr ErrExclusive.
+Proof.
+  assert (E : flat (a ++ Frac k :: b ++ Frac k :: c) = flat a ++ spec_name k ++ flat b ++ spec_name k ++ flat c).
+  { rewrite flat_app, flat_cons, flat_app, flat_cons. reflexivity. }
+  rewrite E. clear E. set (f := flat a ++ spec_name k ++ flat b ++ spec_name k ++ flat c).
+  assert (Hk : find_sub (spec_name k) f <> None) by apply find_sub_occurs.
+  unfold tf_init. destruct (tf_search f) as [[[k' i]|]|] eqn:S; [|now rewrite (tf_search_none_inv f S k) in Hk|reflexivity].
+  destruct (tf_search_inv f k' i S) as [Hi Ho].
+  assert (k' = k) by (destruct k, k'; try reflexivity; exfalso; apply Hk, Ho; discriminate). subst k'.
+  unfold dup_spec. pose proof (find_sub_again (spec_name k) (flat a) (flat b) (flat c) i Hi) as H2.
+  rewrite spec_name_len in H2. fold f in H2. destruct (find_sub (spec_name k) (skipn (i + 4) f)); [reflexivity|congruence].
+Qed.
+
+(* D8 repaired, inside the classified universe: a fine conversion (%c %Ec %EX %OH %OM %OS %OI)
+   anywhere in the pattern makes the constructor throw *)
+Definition wf_itemF (it : item) : Prop :=
+  wf_item it \/ it = Conv [88%N] \/ exists b, it = Conv b /\ classify b = Some Fine.
+
+Lemma wfF_tf it : wf_itemF it -> tf_item it.
+Proof.
+  intros [H|[->|(b & -> & H)]]; [now apply wf_tf_item|eapply conv_tf_item; reflexivity|eapply conv_tf_item; eauto].
+Qed.
+
+Lemma wfF_tok it : wf_itemF it -> tok_item it.
+Proof.
+  intros [H|[->|(b & -> & H)]]; [now apply wf_tok|eapply classify_tok; reflexivity|eapply classify_tok; eauto].
+Qed.
+
+Lemma classified_fine b : classify b = Some Fine -> fine_conv b = true.
+Proof.
+  intros H. destruct (classify_okconv _ _ H) as [[x ->]|(m & x & -> & Hm & Hx)].
+  - cbn [classify] in H. destruct (handled_ty x); [discriminate|]. destruct (mem x coarse1); [discriminate|].
+    destruct (mem x [114;82;84]%N); [discriminate|]. destruct (N.eqb x 88); [discriminate|].
+    destruct (N.eqb_spec x 99); [subst; reflexivity|discriminate].
+  - cbn [classify] in H. destruct Hm; subst; cbn [N.eqb Pos.eqb] in H.
+    + destruct (mem x coarseE); [discriminate|]. destruct (mem x fineE) eqn:M; [|discriminate].
+      apply mem_in in M. cbn in M. destruct M as [<-|[<-|[]]]; reflexivity.
+    + destruct (mem x coarseO); [discriminate|]. destruct (mem x fineO) eqn:M; [|discriminate].
+      apply mem_in in M. cbn in M. destruct M as [<-|[<-|[<-|[<-|[]]]]]; reflexivity.
+Qed.
+
+Lemma sft_init_fine items b : Forall tok_item items -> In (Conv b) items -> fine_conv b = true ->
+  sft_init true (flat items) = None.
+Proof. intros T Hin Hf. apply sft_init_unpatchable. eapply unpatchable_in; eauto. Qed.
+
+Lemma rejects_fine items1 k items2 b :
+  Forall wf_itemF items1 -> Forall wf_itemF items2 ->
+  adj_ok sp_special items1 = true -> adj_ok sp_special items2 = true ->
+  classify b = Some Fine ->
+  In (Conv b) (match k with Some _ => items1 ++ items2 | None => items1 end) ->
+  tf_init true (pattern_of items1 k items2) = inr ErrX.
+Proof.
+  intros X1 X2 A1 A2 Hb Hin. pose proof (classified_fine b Hb) as Hf.
+  assert (T1 : Forall tf_item items1) by (eapply Forall_impl; [|exact X1]; apply wfF_tf).
+  assert (T2 : Forall tf_item items2) by (eapply Forall_impl; [|exact X2]; apply wfF_tf).
+  assert (K1 : Forall tok_item items1) by (eapply Forall_impl; [|exact X1]; apply wfF_tok).
+  assert (K2 : Forall tok_item items2) by (eapply Forall_impl; [|exact X2]; apply wfF_tok).
+  destruct k as [k|]; cbn [pattern_of]; unfold tf_init.
+  - rewrite (tf_search_located items1 items2 k T1 T2 A1 A2), (dup_located items1 items2 k T2 A2), andb_false_r.
+    rewrite split_first, split_second.
+    destruct (sft_init true (flat items1)) eqn:E1; [|reflexivity].
+    apply in_app_or in Hin. destruct Hin as [Hin|Hin]; [rewrite (sft_init_fine items1 b) in E1; [discriminate|auto..]|].
+    destruct (flat items2) as [|y f2] eqn:Ef.
+    { apply flat_nil_inv in Ef; [subst; destruct Hin|]. eapply Forall_impl; [|exact T2]. now intros it [? _]. }
+    rewrite <- Ef, (sft_init_fine items2 b K2 Hin Hf). reflexivity.
+  - rewrite (tf_search_nofrac items1 T1 A1).
+    now rewrite (sft_init_fine items1 b K1 Hin Hf).
+Qed.
+
+(* whatever the pattern: when the repaired constructor accepts it, the segment(s) handed to
+   StringFromTime contain no %X and pass the scan, and the specifier does not occur again *)
+Lemma find_sub_firstn p : forall s i, find_sub p s = Some i -> s = firstn i s ++ p ++ skipn (i + length p) s.
+Proof.
+  induction s as [|x s IH]; intros i H.
+  - cbn [find_sub] in H. destruct (prefixb p []) eqn:E; [|discriminate]. inversion H; subst.
+    destruct p; [reflexivity|discriminate].
+  - cbn [find_sub] in H. destruct (prefixb p (x :: s)) eqn:E.
+    + inversion H; subst. cbn [firstn app Nat.add]. clear H IH. revert E. generalize (x :: s). clear.
+      induction p as [|y p IH]; intros l E; [reflexivity|]. destruct l as [|z l]; [discriminate|].
+      cbn [prefixb] in E. apply andb_true_iff in E. destruct E as [E1 E2]. apply N.eqb_eq in E1. subst.
+      cbn [app length skipn]. f_equal. auto.
+    + destruct (find_sub p s) as [j|] eqn:F; [|discriminate]. inversion H; subst.
+      cbn [firstn app Nat.add skipn]. f_equal. auto.
+Qed.
+
+Lemma accept_inv f x : tf_init true f = inl x ->
+  (tspec x = None /\ find_sub m_X f = None /\ unpatchable f = false) \/
+  (exists k f1 f2, tspec x = Some k /\ f = f1 ++ spec_name k ++ f2 /\
+     find_sub m_X f1 = None /\ unpatchable f1 = false /\
+     find_sub m_X f2 = None /\ unpatchable f2 = false /\ find_sub (spec_name k) f2 = None).
+Proof.
+  unfold tf_init. destruct (tf_search f) as [[[k i]|]|] eqn:S; [| |discriminate].
+  - cbn [andb]. destruct (dup_spec f k i) eqn:D; [discriminate|].
+    destruct (sft_init true (firstn i f)) as [a|] eqn:E1; [|discriminate].
+    destruct (sft_init_some_inv _ _ _ E1) as [X1 U1]. destruct (tf_search_inv f k i S) as [Hi _].
+    pose proof (find_sub_firstn _ _ _ Hi) as Ef. rewrite spec_name_len in Ef.
+    assert (Hd : find_sub (spec_name k) (skipn (i + 4) f) = None).
+    { unfold dup_spec in D. destruct (find_sub (spec_name k) (skipn (i + 4) f)); [discriminate|reflexivity]. }
+    intros H. right. exists k, (firstn i f), (skipn (i + 4) f).
+    destruct (skipn (i + 4) f) as [|y f2] eqn:E2.
+    + inversion H; subst. cbn [tspec]. repeat split; auto.
+    + destruct (sft_init true (y :: f2)) as [b|] eqn:E3; [|discriminate].
+      destruct (sft_init_some_inv _ _ _ E3) as [X2 U2]. inversion H; subst. cbn [tspec]. repeat split; auto.
+  - destruct (sft_init true f) as [a|] eqn:E1; [|discriminate].
+    destruct (sft_init_some_inv _ _ _ E1) as [X1 U1]. intros H. inversion H; subst. left. cbn [tspec]. auto.
 Qed.
